@@ -8,6 +8,7 @@ import (
 	"bytes"
 	"fmt"
 	"io/fs"
+	"math"
 	"os"
 	"path"
 	"path/filepath"
@@ -108,6 +109,8 @@ func (t *TestRenumberer) processFile(filePath string, checkOnly bool, gitHubOutp
 func (t *TestRenumberer) processYaml(ruleId string, contents []byte) ([]byte, error) {
 	scanner := bufio.NewScanner(bytes.NewReader(contents))
 	scanner.Split(bufio.ScanLines)
+	// lines can be longer than the scanner's default limit of 64 KiB
+	scanner.Buffer(nil, math.MaxInt)
 	output := new(bytes.Buffer)
 	writer := bufio.NewWriter(output)
 	idCount := 0
